@@ -108,6 +108,11 @@ def run(ctx):
                     continue
                 for name in ("solution_gor_Standing", "b_o_Standing", "density_Standing", "viscosity_beggs_robinson"):
                     ev += dom.check_forms(lambda q, name=name: getattr(oil, name)(T, q, api, gg, rsi), pin, dom.SCALAR_FORMS + dom.ARRAY1_FORMS, rep, "oil." + name, inp)
+            # several pressures on both sides of the bubble point, held as a 2-D field, as table columns with their own labels
+            # (a frame sorted by decreasing pressure keeps its permuted labels), as unsigned / read-only / strided arrays
+            ps_int = [max(16, int(0.3 * pb)), int(0.9 * pb) + 1, int(1.5 * pb) + 1, int(2.4 * pb) + 1, max(17, int(0.5 * pb)), int(1.1 * pb) + 2]
+            for name in ("solution_gor_Standing", "b_o_Standing", "density_Standing"):
+                ev += dom.check_vector_forms(lambda q, name=name: getattr(oil, name)(T, q, api, gg, rsi), ps_int, rep, "oil." + name, inp)
         if k < (4 if ctx.quick else 25):
             fa = lambda *xs: " ".join(core.frac(float(x)) for x in xs)
             for p in (float(rng.uniform(15, 0.97 * pb)), float(rng.uniform(1.03 * pb, 2.5 * pb))):
